@@ -47,14 +47,21 @@ class Module:
         return self._parents
 
     def classes(self) -> dict[str, ast.ClassDef]:
-        return {n.name: n for n in self.tree.body if isinstance(n, ast.ClassDef)}
+        if "_classes" not in self.__dict__:
+            self.__dict__["_classes"] = {n.name: n for n in self.tree.body if isinstance(n, ast.ClassDef)}
+        return self.__dict__["_classes"]
 
     def functions(self) -> dict[str, ast.FunctionDef]:
-        return {n.name: n for n in self.tree.body if isinstance(n, ast.FunctionDef)}
+        if "_functions" not in self.__dict__:
+            self.__dict__["_functions"] = {n.name: n for n in self.tree.body if isinstance(n, ast.FunctionDef)}
+        return self.__dict__["_functions"]
 
     def constants(self) -> dict[str, object]:
         """Module-level NAME = <literal / simple int expression> bindings."""
+        if "_constants" in self.__dict__:
+            return self.__dict__["_constants"]
         out: dict[str, object] = {}
+        self.__dict__["_constants"] = out
         for n in self.tree.body:
             tgt = val = None
             if isinstance(n, ast.Assign) and len(n.targets) == 1 and isinstance(n.targets[0], ast.Name):
@@ -193,7 +200,11 @@ class Repo:
 
     def imports(self, rel: str) -> dict[str, tuple[str, str]]:
         """local name -> (module text as written, original name) for ``from X import Y``."""
+        memo = self.__dict__.setdefault("_imports_memo", {})
+        if rel in memo:
+            return memo[rel]
         out: dict[str, tuple[str, str]] = {}
+        memo[rel] = out
         for n in ast.walk(self.mod(rel).tree):
             if isinstance(n, ast.ImportFrom):
                 modname = "." * n.level + (n.module or "")
@@ -202,6 +213,13 @@ class Repo:
         return out
 
     def bases(self, cname: str) -> list[str]:
+        memo = self.__dict__.setdefault("_bases_memo", {})
+        if cname in memo:
+            return memo[cname]
+        memo[cname] = self._bases(cname)
+        return memo[cname]
+
+    def _bases(self, cname: str) -> list[str]:
         ent = self.class_table.get(cname)
         if not ent:
             return []
@@ -222,6 +240,12 @@ class Repo:
         return out
 
     def mro(self, cname: str) -> list[str]:
+        memo = self.__dict__.setdefault("_mro_memo", {})
+        if cname not in memo:
+            memo[cname] = self._mro(cname)
+        return memo[cname]
+
+    def _mro(self, cname: str) -> list[str]:
         seen: list[str] = []
 
         def walk(c: str) -> None:
@@ -238,6 +262,12 @@ class Repo:
         return base in self.mro(cname)
 
     def subclasses(self, base: str) -> list[str]:
+        memo = self.__dict__.setdefault("_sub_memo", {})
+        if base not in memo:
+            memo[base] = self._subclasses(base)
+        return memo[base]
+
+    def _subclasses(self, base: str) -> list[str]:
         return sorted(
             n for n in self.class_table if "::" not in n and "#" not in n and self.is_subclass(n, base)
         )
